@@ -159,6 +159,20 @@ impl Wallet {
             add(s, "large", &mut entries);
         }
         add(script_witness(5, &rng.bytes(10)), "witness-v5", &mut entries);
+        // scripts exactly at the size boundaries of the stable UTXO maps (small <= 25 bytes,
+        // medium <= 201 bytes, large above)
+        for len in [26usize, 201, 202] {
+            let mut s = vec![];
+            let mut left = len - 1;
+            while left > 0 {
+                let k = left.min(76) - 1; // one push opcode + k bytes
+                push_slice(&mut s, &rng.bytes(k));
+                left -= k + 1;
+            }
+            s.push(0x51);
+            assert_eq!(s.len(), len);
+            add(s, "boundary", &mut entries);
+        }
         while entries.len() < size {
             match rng.below(5) {
                 0 => add(script_p2pkh(&rng.bytes(20)), "p2pkh", &mut entries),
